@@ -43,7 +43,7 @@ Hypothesis Hin : both_increasing ((flow, dlow) :: (fnext, dnext) :: rest).
 Hypothesis Hdlow : 0 < dlow.
 Hypothesis Hnz : Forall (fun p => fst p <> 0) ((fnext, dnext) :: rest).
 Hypothesis Hdmin : 0 < dmin < dnext.
-Hypothesis Hbp : Rtrunc (IZR (nf - pl - 1) / IZR pl + 5 / 10) = Z.of_nat n.
+Hypothesis Hbp : Z.max (- ((- (nf - pl - 1)) / pl)) 0 = Z.of_nat n.
 (* the last input fraction leaves room for the extrapolated top point *)
 Hypothesis Htop : forall p, In p ((fnext, dnext) :: rest) -> fst p < 999 / 1000.
 Hypothesis Hpos : 0 < fnext.
@@ -210,15 +210,13 @@ Proof.
   unfold Int_part. rewrite <- (tech_up (IZR z) (z + 1)%Z); [lia| rewrite plus_IZR; lra | rewrite plus_IZR; lra].
 Qed.
 
-Lemma between_points_3 : Rtrunc (IZR (10 - 2 - 1) / IZR 2 + 5 / 10) = Z.of_nat 4.
-Proof. replace (IZR (10 - 2 - 1) / IZR 2 + 5 / 10) with (IZR 4) by (cbn; lra). apply Rtrunc_IZR. lia. Qed.
-Lemma between_points_1 : Rtrunc (IZR (10 - 1 - 1) / IZR 1 + 5 / 10) = Z.of_nat 8.
-Proof.
-  unfold Rtrunc. destruct (Rle_dec 0 _) as [_|N]; [|exfalso; apply N; cbn; lra].
-  unfold Int_part. rewrite <- (tech_up _ 9%Z); [reflexivity| cbn; lra | cbn; lra].
-Qed.
-Lemma between_points_3pl : Rtrunc (IZR (10 - 3 - 1) / IZR 3 + 5 / 10) = Z.of_nat 2.
-Proof.
-  unfold Rtrunc. destruct (Rle_dec 0 _) as [_|N]; [|exfalso; apply N; cbn; lra].
-  unfold Int_part. rewrite <- (tech_up _ 3%Z); [reflexivity| cbn; lra | cbn; lra].
-Qed.
+Lemma between_points_3 : Z.max (- ((- (10 - 2 - 1)) / 2)) 0 = Z.of_nat 4.
+Proof. reflexivity. Qed.
+Lemma between_points_1 : Z.max (- ((- (10 - 1 - 1)) / 1)) 0 = Z.of_nat 8.
+Proof. reflexivity. Qed.
+Lemma between_points_3pl : Z.max (- ((- (10 - 3 - 1)) / 3)) 0 = Z.of_nat 2.
+Proof. reflexivity. Qed.
+(* five or more points: the count is rounded UP (two interior nodes per interval for five points: 13 or 14 entries) *)
+Lemma between_points_4pl : Z.max (- ((- (10 - 4 - 1)) / 4)) 0 = Z.of_nat 2.
+Proof. reflexivity. Qed.
+
